@@ -241,10 +241,14 @@ func enumF64(chunk, nchunks int, yield func(core.Case) bool) {
 				if buf[7] != 0xAA {
 					r.Add("F64toa|"+cls+"|writes-before-output", "%s", f)
 				}
+				// the internal/json wrapper (GuardSlice + native call, plus whatever spelling policy it adds,
+				// e.g. "-0.0" for negative zero): same demand as for the native encoder, not byte equality
 				pre := []byte("pre")
 				got := verifhook.C18EncodeFloat64(pre[:3:3], x)
-				if string(got) != "pre"+out {
-					r.Add("json.EncodeFloat64|"+cls+"|differs-from-native", "%s: got %q want %q", f, got, "pre"+out)
+				if len(got) < 3 || string(got[:3]) != "pre" {
+					r.Add("json.EncodeFloat64|"+cls+"|clobbers-buffer-prefix", "%s: got %q", f, got)
+				} else if b2, err := strconv.ParseFloat(string(got[3:]), 64); err != nil || math.Float64bits(b2) != bits || !json.Valid(got[3:]) {
+					r.Add("json.EncodeFloat64|"+cls+"|does-not-parse-back-bit-exactly", "%s: EncodeFloat64(%s) = %q (native f64toa %q) parses back to %016x (err %v)", f, key, got[3:], out, math.Float64bits(b2), err)
 				}
 			}
 		})) {
